@@ -679,3 +679,193 @@ Proof.
   intros H Hc Hs. destruct (chunked_encode_general up sizes body Hs) as (cs & -> & Hok & Hb & _).
   rewrite parse_chunked_general; [rewrite Hb; reflexivity|exact H|exact Hc|exact Hok|apply hex_render_str].
 Qed.
+
+(* ================= 5. truncation (C09) ================= *)
+(* the two error classes of the Rust parser (ResponseError::Response / ::Stream); excludes Ok, Crash and the model's
+   fuel error 99 *)
+Definition bad_err (e : N) : Prop := e = E_Response \/ e = E_Stream.
+Definition fails {A : Type} (x : outcome A) : Prop := exists e, x = Err e /\ bad_err e.
+
+Lemma fails_response {A : Type} : @fails A (Err E_Response).
+Proof. exists E_Response. split; [reflexivity|left; reflexivity]. Qed.
+Lemma fails_stream {A : Type} : @fails A (Err E_Stream).
+Proof. exists E_Stream. split; [reflexivity|right; reflexivity]. Qed.
+
+Lemma strict_prefix_app_cases (p a b : bytes) : strict_prefix p (a ++ b) ->
+  strict_prefix p a \/ exists p', p = a ++ p' /\ strict_prefix p' b.
+Proof.
+  intros (s & Hs & E). symmetry in E. apply app_eq_app in E. destruct E as (l & [[Ea Eb]|[Ea Eb]]).
+  - right. exists l. split; [exact Ea|]. exists s. split; [exact Hs|exact Eb].
+  - destruct l as [|x l].
+    + right. exists []. rewrite app_nil_r in Ea. split; [rewrite app_nil_r; symmetry; exact Ea|].
+      exists s. split; [exact Hs|]. cbn [app] in Eb. symmetry. exact Eb.
+    + left. exists (x :: l). split; [discriminate|exact Ea].
+Qed.
+
+Lemma strict_prefix_noLF (x p : bytes) : ~ In LF x -> strict_prefix p (x ++ [LF]) -> ~ In LF p.
+Proof.
+  intros Hx (s & Hs & E) Hin. destruct (exists_last Hs) as (s' & c & ->).
+  rewrite app_assoc in E. apply app_inj_tail in E. destruct E as [E _]. apply Hx. rewrite E.
+  apply in_or_app. left. exact Hin.
+Qed.
+
+Lemma strict_prefix_length (p m : bytes) : strict_prefix p m -> (length p < length m)%nat.
+Proof.
+  intros (s & Hs & ->). rewrite app_length. destruct s; [contradiction|]. cbn [length]. lia.
+Qed.
+
+(* a header-loop input whose next line has no LF is rejected *)
+Lemma rheader_loop_noLF (f : nat) (p : bytes) (acc : headers) : ~ In LF p ->
+  rheader_loop_flat (S f) p acc = Err E_Response.
+Proof.
+  intros Hn. cbn [rheader_loop_flat]. rewrite (read_until_flat_none p Hn).
+  destruct (utf8_valid p); cbn [negb]; [|reflexivity].
+  destruct (beq p CRLF) eqn:E.
+  - exfalso. apply beq_eq in E. apply Hn. rewrite E. right. left. reflexivity.
+  - unfold parse_header_line. rewrite (strip_crlf_nolf p Hn). reflexivity.
+Qed.
+
+Lemma rheader_loop_trunc (lines : list srv_line) : forall (f : nat) (acc : headers) (p : bytes),
+  Forall line_ok lines -> (length p < f)%nat ->
+  strict_prefix p (concat (map render_line lines) ++ CRLF) ->
+  rheader_loop_flat f p acc = Err E_Response.
+Proof.
+  induction lines as [|l lines IH]; intros f acc p Hok Hf Hp;
+    (destruct f as [|f]; [lia|]).
+  - cbn [map concat app] in Hp. apply rheader_loop_noLF.
+    apply (strict_prefix_noLF [CR]); [apply not_in_one; discriminate|exact Hp].
+  - inversion Hok as [|? ? Hl Hls]; subst. cbn [map concat] in Hp. rewrite <- app_assoc in Hp.
+    apply strict_prefix_app_cases in Hp. destruct Hp as [Hp|(p' & -> & Hp')].
+    + apply rheader_loop_noLF. rewrite render_line_split in Hp.
+      apply (strict_prefix_noLF _ p (render_line_noLF l Hl) Hp).
+    + rewrite rheader_loop_step by exact Hl. apply IH; [exact Hls| |exact Hp'].
+      rewrite app_length, render_line_split, app_length in Hf. cbn [length] in Hf. lia.
+Qed.
+
+(* every strict prefix of the head is rejected *)
+Lemma parse_response_trunc_head (h : srv_head) (p : bytes) : head_ok h ->
+  strict_prefix p (render_head h) -> parse_response_flat p = Err E_Response.
+Proof.
+  intros H Hp. pose proof H as (_ & _ & _ & _ & _ & _ & Hl).
+  rewrite render_head_split in Hp. apply strict_prefix_app_cases in Hp. destruct Hp as [Hp|(p' & -> & Hp')].
+  - rewrite status_line_split in Hp. pose proof (strict_prefix_noLF _ p (status_line_noLF h H) Hp) as Hn.
+    unfold parse_response_flat. rewrite (read_until_flat_none p Hn).
+    destruct (parse_status_line p) as [[v s]|]; reflexivity.
+  - unfold parse_response_flat. rewrite (status_line_read h p' H), (parse_status_line_ok h H).
+    rewrite (rheader_loop_trunc (sh_lines h) _ [] p' Hl); [reflexivity|lia|exact Hp'].
+Qed.
+
+(* chunks *)
+Lemma parse_chunk_noLF (p : bytes) : ~ In LF p -> fails (parse_chunk_flat p).
+Proof.
+  intros Hn. unfold parse_chunk_flat. rewrite (read_until_flat_none p Hn).
+  destruct (utf8_valid p); cbn [negb]; [|apply fails_response].
+  destruct (parse_usize_hex (trim_end p)) as [n|]; [|apply fails_response].
+  destruct (N.eqb_spec n 0) as [E|E]; [apply fails_stream|].
+  rewrite read_exact_flat_N_short by (cbn [length]; lia). apply fails_stream.
+Qed.
+
+(* after a good size line, fewer than n + 2 further bytes: UnexpectedEof *)
+Lemma parse_chunk_short (hx : bytes) (n : N) (l1 : bytes) : hex_str hx n -> n <= usize_max ->
+  N.of_nat (length l1) < n + 2 -> parse_chunk_flat (hx ++ CRLF ++ l1) = Err E_Stream.
+Proof.
+  intros Hhx Hmax Hlen. unfold parse_chunk_flat.
+  rewrite (hex_line_read hx n l1 Hhx), (hex_line_utf8 hx n Hhx). cbn [negb].
+  rewrite (parse_usize_hex_line hx n Hhx Hmax).
+  destruct (N.eqb_spec n 0) as [E|E].
+  - rewrite read_exact_flat_short by lia. reflexivity.
+  - unfold read_exact_flat_N. destruct (N.ltb_spec (N.of_nat (length l1)) n); [reflexivity|].
+    unfold read_exact_flat at 1. destruct (Nat.leb_spec (N.to_nat n) (length l1)); [|reflexivity].
+    rewrite read_exact_flat_short; [reflexivity|]. rewrite skipn_length. lia.
+Qed.
+
+Lemma chunk_loop_fail (f : nat) (p acc : bytes) :
+  fails (parse_chunk_flat p) -> fails (chunk_loop_flat (S f) p acc).
+Proof. intros (e & E & He). cbn [chunk_loop_flat]. rewrite E. exists e. split; [reflexivity|exact He]. Qed.
+
+Lemma hex_line_noLF (hx : bytes) (n : N) : hex_str hx n -> ~ In LF (hx ++ [CR]).
+Proof.
+  intros (_ & Hd & _). apply not_in_app; [apply hex_notin; [exact Hd|reflexivity]|apply not_in_one; discriminate].
+Qed.
+
+Lemma hex_line_split (hx : bytes) : hx ++ CRLF = (hx ++ [CR]) ++ [LF].
+Proof. unfold CRLF. rewrite <- app_assoc. reflexivity. Qed.
+
+Lemma chunk_loop_trunc (last : bytes) (cs : list (bytes * bytes)) : forall (f : nat) (acc p : bytes),
+  Forall chunk_ok cs -> hex_str last 0 -> (length p < f)%nat ->
+  strict_prefix p (chunks_enc cs last) -> fails (chunk_loop_flat f p acc).
+Proof.
+  induction cs as [|[hx d] cs IH]; intros f acc p Hok Hl Hf Hp;
+    (destruct f as [|f]; [lia|]).
+  - rewrite chunks_enc_nil in Hp. rewrite app_assoc in Hp.
+    apply strict_prefix_app_cases in Hp. destruct Hp as [Hp|(p' & -> & Hp')].
+    + apply chunk_loop_fail, parse_chunk_noLF. rewrite hex_line_split in Hp.
+      apply (strict_prefix_noLF _ p (hex_line_noLF last 0 Hl) Hp).
+    + apply chunk_loop_fail. rewrite <- app_assoc.
+      rewrite (parse_chunk_short last 0 p' Hl); [apply fails_stream|unfold usize_max; lia|].
+      apply strict_prefix_length in Hp'. unfold CRLF in Hp'. cbn [length] in Hp'. lia.
+  - inversion Hok as [|? ? Hc Hcs]; subst. pose proof Hc as (Hne & Hhx & Hmax). cbn [fst snd] in *.
+    rewrite chunks_enc_cons in Hp. cbn [fst snd] in Hp.
+    apply strict_prefix_app_cases in Hp. destruct Hp as [Hp|(p' & -> & Hp')].
+    + unfold chunk_enc in Hp. rewrite app_assoc in Hp.
+      apply strict_prefix_app_cases in Hp. destruct Hp as [Hp|(p' & -> & Hp')].
+      * apply chunk_loop_fail, parse_chunk_noLF. rewrite hex_line_split in Hp.
+        apply (strict_prefix_noLF _ p (hex_line_noLF hx _ Hhx) Hp).
+      * apply chunk_loop_fail. rewrite <- app_assoc.
+        rewrite (parse_chunk_short hx _ p' Hhx Hmax); [apply fails_stream|].
+        apply strict_prefix_length in Hp'. rewrite app_length in Hp'. unfold CRLF in Hp'. cbn [length] in Hp'. lia.
+    + cbn [chunk_loop_flat]. rewrite parse_chunk_flat_data by exact Hc.
+      apply IH; [exact Hcs|exact Hl| |exact Hp'].
+      rewrite app_length in Hf. unfold chunk_enc, CRLF in Hf. rewrite !app_length in Hf. cbn [length] in Hf. lia.
+Qed.
+
+Lemma resp_finish_trunc_cl (v : bytes) (s : N) (hs : headers) (cl body p' : bytes) :
+  ~ is_chunked hs -> hget (HKnown H_ContentLength) hs = Some cl ->
+  dec_str cl (N.of_nat (length body)) -> N.of_nat (length body) <= usize_max ->
+  strict_prefix p' body -> resp_finish v s hs p' = Err E_Stream.
+Proof.
+  intros Hc Hcl Hd Hmax Hp. unfold resp_finish. rewrite (chunked_flag_false hs Hc). cbv zeta. cbn iota.
+  rewrite Hcl, (parse_usize_dec_str cl _ Hd Hmax).
+  rewrite read_exact_flat_N_short; [reflexivity|]. apply strict_prefix_length in Hp. lia.
+Qed.
+
+Lemma resp_finish_trunc_chunked (v : bytes) (s : N) (hs : headers) (cs : list (bytes * bytes)) (last p' : bytes) :
+  is_chunked hs -> Forall chunk_ok cs -> hex_str last 0 ->
+  strict_prefix p' (chunks_enc cs last) -> fails (resp_finish v s hs p').
+Proof.
+  intros Hc Hok Hl Hp. unfold resp_finish. rewrite (chunked_flag_true hs Hc). cbv zeta. cbn iota.
+  destruct (chunk_loop_trunc last cs (S (length p')) [] p' Hok Hl) as (e & E & He); [lia|exact Hp|].
+  rewrite E. exists e. split; [reflexivity|exact He].
+Qed.
+
+(* C09: no strict prefix of a conforming server's complete message parses to Ok *)
+Lemma truncated_never_ok_lemma (h : srv_head) (body m p : bytes) :
+  head_ok h -> srv_message h body m -> strict_prefix p m -> fails (parse_response_flat p).
+Proof.
+  intros H Hm Hp. destruct Hm as [body (Hc & cl & Hcl & Hd & Hmax)|Hn|cs last Hc Hok Hl].
+  - apply strict_prefix_app_cases in Hp. destruct Hp as [Hp|(p' & -> & Hp')].
+    + rewrite (parse_response_trunc_head h p H Hp). apply fails_response.
+    + rewrite parse_response_head by exact H.
+      rewrite (resp_finish_trunc_cl _ _ _ cl body p'); [apply fails_stream|assumption..].
+  - rewrite (parse_response_trunc_head h p H Hp). apply fails_response.
+  - apply strict_prefix_app_cases in Hp. destruct Hp as [Hp|(p' & -> & Hp')].
+    + rewrite (parse_response_trunc_head h p H Hp). apply fails_response.
+    + rewrite parse_response_head by exact H. apply (resp_finish_trunc_chunked _ _ _ cs last); assumption.
+Qed.
+
+(* ... and the complete message itself parses to exactly what was sent (C07), whatever follows it *)
+Lemma parse_srv_message (h : srv_head) (body m rest : bytes) :
+  head_ok h -> srv_message h body m ->
+  exists hs', parse_response_flat (m ++ rest) =
+              Ok ({| s_version := sh_version h; s_status := sh_status h; s_headers := hs'; s_body := body |}, rest) /\
+              (is_chunked (head_headers h) -> hs' = dechunked_headers (head_headers h) body) /\
+              (~ is_chunked (head_headers h) -> hs' = head_headers h).
+Proof.
+  intros H Hm. destruct Hm as [body Hcl|Hn|cs last Hc Hok Hl].
+  - exists (head_headers h). rewrite <- app_assoc. split; [apply parse_cl_lemma; assumption|].
+    destruct Hcl as (Hc & _). split; [intros; contradiction|reflexivity].
+  - exists (head_headers h). split; [apply parse_nobody_lemma; assumption|].
+    destruct Hn as (Hc & _). split; [intros; contradiction|reflexivity].
+  - exists (dechunked_headers (head_headers h) (concat (map snd cs))). rewrite <- app_assoc.
+    split; [apply parse_chunked_general; assumption|]. split; [reflexivity|intros; contradiction].
+Qed.
